@@ -110,7 +110,7 @@ def bounds(tier):
       geopotential='strictly decreasing k-subsets of %s; gz = -4..7 step 1/2; g in %s' % (list(PHI_VALUES), list(GRAVITY)),
       semi_lagrangian='sigma sets with 2..4 layers on the %s lattice; Grid(4,5,12x6); dt in {0} U {0.5,-1} (motionless)' % ('fifths' if q else 'tenths'),
       horizontal_grids=dict(sizes=[list(s) for s in (GRID_SIZES[:3] if q else GRID_SIZES)], spacings=list(SPACINGS),
-                            offset_pairs='{0,.1}^2' if q else '{0,.1,pi/5}^2 + equal pairs of {1,3,6}'))
+                            offset_pairs='{0,.1}^2 + (0,1),(1,1),(1,0)' if q else '{0,.1,pi/5}^2 + equal pairs of {1,3,6}'))
 
 
 def units(tier, seed):
@@ -137,7 +137,7 @@ def units(tier, seed):
   sizes = GRID_SIZES[:3] if q else GRID_SIZES
   # offset pairs: quick = {0,.1}^2; thorough = {0,.1,pi/5}^2 plus every equal-offset pair
   if q:
-    opairs = [[x, y] for x in OFFSETS[:2] for y in OFFSETS[:2]]
+    opairs = [[x, y] for x in OFFSETS[:2] for y in OFFSETS[:2]] + [[0.0, 1.0], [1.0, 1.0], [1.0, 0.0]]   # 1 rad > half a cell
   else:
     opairs = [[x, y] for x in OFFSETS[:3] for y in OFFSETS[:3]] + [[x, x] for x in OFFSETS[3:]]
   for a in sizes:
@@ -768,6 +768,23 @@ def _work_hgrid(unit, rec):
                  sample={'regridder': rname, 'source': gtag[:3], 'target': gtag[3:], 'fields': 'constants %s' % amps})
         want = np.stack([amp * np.ones(gt.nodal_shape) for amp in amps])
         _compare(rec, got, want, scale=max(abs(x) for x in amps), site=rname + ':reproduces_constants', key=key)
+        if rname == 'NearestRegridder' and (a, sa) == (b, sb):
+          # value oracle between grids that differ only in the longitude offset: a field that numbers its nodes must
+          # arrive from the nearest source node by great-circle distance (brute force; ties are counted, not asserted)
+          def xyz(g):
+            lon, sinlat = np.meshgrid(np.asarray(g.nodal_axes[0]), np.asarray(g.nodal_axes[1]), indexing='ij')
+            c = np.sqrt(np.clip(1 - sinlat ** 2, 0, 1))
+            return np.stack([c * np.cos(lon), c * np.sin(lon), sinlat], -1).reshape(-1, 3)
+          d = xyz(gt) @ xyz(gs).T                                   # cosine of the angle, target x source
+          order = np.argsort(-d, axis=1)
+          best, second = np.take_along_axis(d, order[:, :1], 1)[:, 0], np.take_along_axis(d, order[:, 1:2], 1)[:, 0]
+          clear = (best - second) > 1e-9
+          rec.note('nearest_neighbour_ties_not_asserted', int((~clear).sum()))
+          field = np.arange(1.0, a[0] * a[1] + 1.0).reshape(a)
+          gotn = np.asarray(r(field)).reshape(-1)
+          wantn = field.reshape(-1)[order[:, 0]]
+          rec.case(key + ('numbered_field',), transitions=1, outcome=gotn.tobytes())
+          _compare(rec, np.where(clear, gotn, 0.0), np.where(clear, wantn, 0.0), scale=float(field.max()), site=rname + ':takes_the_nearest_source_node', key=key)
         if equal:
           got2 = np.asarray(r(const[0]))
           _compare(rec, got2, want[0], scale=abs(amps[0]), site=rname + ':reproduces_constants', key=key + ('2d',))
